@@ -29,6 +29,9 @@ def main(argv=None):
         mod = importlib.import_module(f"bvstatic.rules.{prop.lower()}")
         chk = Check(prop, args.tier, Repo(args.repo) if args.repo else Repo(), only=only)
         mod.run(chk)
+        from .rules.common import pins_rule, signature_rule
+        chk.guard(signature_rule, chk)
+        chk.guard(pins_rule, chk)
         if chk.thorough and hasattr(mod, "run_thorough"):
             mod.run_thorough(chk)
         rc = chk.finish()
